@@ -280,6 +280,15 @@ class C11(Prop):
                 # a status; the numbers returned are 0/0 artefacts, only the status has to agree
                 if a.split(" ")[0] == b.split(" ")[0]: continue
             if a != b and not self.close(op, a, b):
+                # a dump that differs only in how values within rounding distance of a bin edge were placed (the shifted bmin of a
+                # different - harmless - allocation policy rounds differently; layer L0) is accepted when the implementation's own
+                # dump satisfies the exact-rational accounting monitor for the values it accepted
+                if op.startswith("hdump") and a.startswith("ok nb=") and b.startswith("ok nb=") and not case.get("exact"):
+                    vals = self.accepted_vals(case["ops"], impl_out, i)
+                    ka, kb = kv(a), kv(b)
+                    if (vals is not None and all(ka[k] == kb[k] for k in ("n", "nc", "no", "xmin", "xmax", "w", "full", "done", "rounded", "ds"))
+                            and self.check_dump(ka, vals, False, ka["full"] == "1") is None):
+                        return None      # from here on the two sides hold (legitimately) different counts near bin edges: monitors only
                 return (i, a, b)
         return None
 
@@ -294,6 +303,7 @@ class C11(Prop):
             return self.same_histogram(kv(a), kv(b))
         if name == "hscore":                      # same status, same bin identified by its lower bound (not by array index)
             if wa[0] != wb[0]: return False
+            if wa[0] != "ok": return True         # *ret_b = 0 on failure: its lower bound depends on the allocation only
             la, lb = fbits(kv(a)["lb"]), fbits(kv(b)["lb"])
             return la == lb or abs(la - lb) <= 1e-12 * (abs(la) + abs(lb))
         if name == "hnew":
@@ -313,6 +323,15 @@ class C11(Prop):
             if math.isnan(fx) or math.isnan(fy) or math.isinf(fx) or math.isinf(fy): return False
             if abs(fx - fy) > rel * max(abs(fx), abs(fy)) + 1e-300: return False
         return True
+
+    def accepted_vals(self, ops, out, upto):
+        vals = []
+        for op, l in zip(ops[:upto], out[:upto]):
+            if op.startswith("hadd"):
+                xs = parse_xs(kv(op)["xs"]); st = l[3:] if l.startswith("st=") else ""
+                if len(st) != len(xs): return None
+                vals += [x for x, c in zip(xs, st) if c == "o"]
+        return vals
 
     def same_histogram(self, x, y):
         """Two dumps describe the same histogram when every observable the property talks about agrees: counters, flags, xmin/xmax,
@@ -476,7 +495,8 @@ class C11(Prop):
             vals += [x for x in batch if math.isfinite(x) and abs((x - bmin) / w) < 1e9]
             r = rng.random()
             if r < 0.35: ops.append("hdump")
-            elif r < 0.55: ops.append("hscore x=" + d(rng.choice(batch + [float("nan"), 1e300, -3e9 * w, 2147483647.5 * w + bmin, -2147483648.5 * w + bmin])))
+            elif r < 0.55: ops.append("hscore x=" + d(rng.choice(batch + [float("nan"), 1e300, -3e9 * w, 2147483647.5 * w + bmin, -2147483648.5 * w + bmin,
+                                                                    -2147483647.5 * w + bmin, 2147483648.5 * w + bmin, 2147483649.5 * w + bmin])))
             elif r < 0.75 and vals:
                 n = len(vals)
                 ops.append("hrank r=%d" % rng.choice([1, n, (n + 1) // 2, rng.randrange(1, n + 1), 0, n + 1, -3]))
